@@ -2460,6 +2460,18 @@ impl DB {
 
         files
     }
+
+    /**
+    Compact the files of one level that overlap the user key range into the next level (the
+    crate's own [`DB::force_level_compaction`], which the public [`DB::compact_range`] calls for
+    every level down to the deepest one that holds files of the range).
+
+    Lets a monitor build layouts that reach the deeper levels without the gigabytes of data the
+    size triggers would need. `level + 1` must be a valid level.
+    */
+    pub fn verif_force_level_compaction(&self, level: usize, key_range: Range<Option<&[u8]>>) {
+        self.force_level_compaction(level, &key_range);
+    }
 }
 
 /// Various statistics and summaries that can be requested from the database.
